@@ -111,7 +111,7 @@ def run_case(ctx, col, case):
         return
     moves = s.m.moves[n0:]
     verts = shapes.vertices_from_moves(moves, o)
-    if any(code != "G1" for code, *_ in moves):
+    if any(mv[0] != "G1" for mv in moves):
         col.violation("non-G1-segment", ctx.case_ref(case), {"request": req})
         return
     nsteps = len(verts)
